@@ -34,9 +34,44 @@ READ_EXCEPTIONS = {
 }
 
 
+_ALIAS_CACHE = {}
+
+
+def atomic_aliases():
+    """(struct path, field name) -> class: fields of other structs that hold a reference to (or a clone of the Arc of)
+    a classified atomic -- `Reservation { inflight: &self.inflight }` -- found from the struct literals of crate nucleo."""
+    import common
+    facts = common.FACTS[0]
+    if facts is None:
+        return {}
+    k = id(facts)
+    if k in _ALIAS_CACHE:
+        return _ALIAS_CACHE[k]
+    out = {}
+    _ALIAS_CACHE[k] = out          # (recursion guard: classify below consults the cache)
+    for b in facts.bodies_of("nucleo"):
+        f2 = fn_of(b)
+        for bi, si, s_ in f2.stmts(lambda s_: s_["k"] == "assign" and s_["rv"].get("agg") == "adt"):
+            adt = str(s_["rv"].get("adt", ""))
+            if adt.endswith("boxcar::Vec") or adt.endswith("Entry") or adt.endswith("Bucket"):
+                continue
+            for nm, op in zip(s_["rv"].get("fields", []), s_["rv"].get("ops", [])):
+                e_ = f2.expr_of_operand(op)
+                c_ = classify(f2, e_, 1)
+                if c_ in ("Vec.inflight", "Entry.active", "Bucket.entries"):
+                    out[(adt, nm)] = c_
+    return out
+
+
 def classify(fn, recv, depth=0):
     base, names = field_chain(recv)
     e = peel(recv)
+    if depth == 0 and names and isinstance(e, tuple) and e[0] == "field":
+        al = atomic_aliases()
+        of_ = str(e[3] or "").split("<")[0]
+        for (adt, nm), c_ in al.items():
+            if nm == names[-1] and (adt == of_ or adt.endswith("::" + of_) or of_.endswith("::" + adt.rsplit("::", 1)[-1])):
+                return c_
     # a captured variable of a closure: classify what the parent body captured
     if names and isinstance(base, tuple) and base[0] == "arg" and base[1] == 1 and fn.b.get("kind") == "Closure" and depth < 4:
         rc = resolve_capture(fn, names[0])
